@@ -118,9 +118,16 @@ def explore_config(r, h1, rnd, n):
     return len(cases), bad, corr
 
 
-MISMATCH = ("@pytest.fixture\ndef narrow_fx():\n    return 1\n\n@pytest.fixture(scope=\"session\")\n"
-            "def wide_fx(narrow_fx):\n    return narrow_fx\n\n")
-CYCLE = "@pytest.fixture\ndef cyc_a(cyc_b):\n    return 1\n\n@pytest.fixture\ndef cyc_b(cyc_a):\n    return 1\n\n"
+MISMATCH1 = ("@pytest.fixture\ndef narrow_fx():\n    return 1\n\n@pytest.fixture(scope=\"session\")\n"
+             "def wide_fx(narrow_fx):\n    return narrow_fx\n\n")
+# one fixture with TWO narrower dependencies: two warnings anchored on the same name
+MISMATCH2 = ("@pytest.fixture\ndef narrow_fx():\n    return 1\n\n@pytest.fixture\ndef narrow_fy():\n    return 1\n\n"
+             "@pytest.fixture(scope=\"session\")\ndef wide_fx(narrow_fx, narrow_fy):\n    return narrow_fx\n\n")
+CYCLE1 = "@pytest.fixture\ndef cyc_a(cyc_b):\n    return 1\n\n@pytest.fixture\ndef cyc_b(cyc_a):\n    return 1\n\n"
+# one fixture that anchors TWO cycles
+CYCLE2 = ("@pytest.fixture\ndef cyc_a(cyc_b, cyc_c):\n    return 1\n\n@pytest.fixture\ndef cyc_b(cyc_a):\n    return 1\n\n"
+          "@pytest.fixture\ndef cyc_c(cyc_a):\n    return 1\n\n")
+MISMATCH, CYCLE = MISMATCH1, CYCLE1
 UNDECL = "def test_undecl():\n    x = narrow_fx\n    return x\n\n"
 DECL = "def test_undecl(narrow_fx):\n    x = narrow_fx\n    return x\n\n"
 
@@ -130,7 +137,7 @@ def diag_versions(rnd, root):
     cause of each kind of diagnostic"""
     p = root + "/pkg/test_diag.py"
     conf = root + "/pkg/conftest.py"
-    blocks = {"m": MISMATCH, "c": CYCLE, "u": UNDECL}
+    blocks = {"m": rnd.choice([MISMATCH1, MISMATCH2]), "c": rnd.choice([CYCLE1, CYCLE2]), "u": UNDECL}
     order = ["m", "c", "u"]
     rnd.shuffle(order)
     present = list(order)
